@@ -48,6 +48,46 @@ class Flag:
         return f"<Flag {self.name} set={[f.name for f in self.setters]} clear={[f.name for f in self.clearers]}>"
 
 
+def _parametric_polarity(model, roles, fn):
+    """A primitive that sets *or* clears the flag depending on one boolean parameter:
+    `def set_flag(on): if on: tl.v = True else: tl.v = False` / `tl.v = on` / `tl.v = bool(on)`.
+    Returns (parameter index among the call's positional arguments, parameter name, True if a truthy
+    argument sets the flag) or None."""
+    params = [p for p in fn.params if p not in ("self", "cls")]
+    body = [st for st in fn.node.body if not (isinstance(st, ast.Expr) and isinstance(st.value, ast.Constant))]
+    if len(body) != 1 or not params:
+        return None
+    st = body[0]
+
+    def store_of(stmts):
+        if len(stmts) == 1 and isinstance(stmts[0], ast.Assign) and len(stmts[0].targets) == 1 and isinstance(stmts[0].targets[0], ast.Attribute) \
+                and roles.tl_of_expr(fn, stmts[0].targets[0]) is not None:
+            return stmts[0].value
+        return None
+
+    if isinstance(st, ast.If) and st.orelse:
+        t, neg = st.test, False
+        while isinstance(t, ast.UnaryOp) and isinstance(t.op, ast.Not):
+            t, neg = t.operand, not neg
+        if isinstance(t, ast.Name) and t.id in params:
+            a, b = store_of(st.body), store_of(st.orelse)
+            if a is not None and b is not None:
+                pa, pb = value_polarity(model, fn, a), value_polarity(model, fn, b)
+                if {pa, pb} == {"truthy", "falsy"}:
+                    return params.index(t.id), t.id, (pa == "truthy") != neg
+        return None
+    v = store_of([st])
+    if v is not None:
+        if isinstance(v, ast.Call) and isinstance(v.func, ast.Name) and v.func.id == "bool" and len(v.args) == 1:
+            v = v.args[0]
+        neg = False
+        while isinstance(v, ast.UnaryOp) and isinstance(v.op, ast.Not):
+            v, neg = v.operand, not neg
+        if isinstance(v, ast.Name) and v.id in params:
+            return params.index(v.id), v.id, not neg
+    return None
+
+
 def discover_flags(model: Model, roles: Roles, stack_tl) -> list:
     flags: dict = {}
     by_fn: dict = {}
@@ -72,6 +112,13 @@ def discover_flags(model: Model, roles: Roles, stack_tl) -> list:
                             vals.append(n.value)
             if not vals:
                 raise AnalysisError(f"{q}: store to thread-local flag in an unrecognised form")
+            par0 = _parametric_polarity(model, roles, fn)
+            if par0 is not None:
+                if not hasattr(fl, "parametric"):
+                    fl.parametric = {}
+                fl.parametric[q] = par0
+                fl.setters.append(fn)
+                continue
             falsy = [value_polarity(model, fn, v) == "falsy" for v in vals]
             truthy = [value_polarity(model, fn, v) == "truthy" or isinstance(v, ast.JoinedStr) for v in vals]
             if all(falsy):
@@ -81,7 +128,14 @@ def discover_flags(model: Model, roles: Roles, stack_tl) -> list:
                 if any(isinstance(n, ast.Raise) for n in walk_scope(fn.node)) and loads:
                     fl.guarded_setters.add(q)
             else:
-                fl.mixed.append(fn)
+                par = _parametric_polarity(model, roles, fn)
+                if par is not None:
+                    if not hasattr(fl, "parametric"):
+                        fl.parametric = {}
+                    fl.parametric[q] = par
+                    fl.setters.append(fn)  # (counts as the primitive that can set; call sites decide by their argument)
+                else:
+                    fl.mixed.append(fn)
         elif loads:
             fl.getters.append(fn)
             if any(isinstance(n, ast.Raise) for n in walk_scope(fn.node)):
@@ -236,6 +290,13 @@ def analyse_flag_function(model: Model, roles: Roles, cg: CallGraph, flag: Flag,
         t = model.resolve_call(fn, call)
         if t.kind == "func":
             q = t.target.qualname
+            par = getattr(flag, "parametric", {}).get(q)
+            if par is not None:
+                idx, pname, truthy_sets = par
+                arg = call.args[idx] if idx < len(call.args) else next((k.value for k in call.keywords if k.arg == pname), None)
+                if isinstance(arg, ast.Constant):
+                    return ("set" if bool(arg.value) == truthy_sets else "clr", q)
+                raise AnalysisError(f"{fn.qualname}: `{norm(call)[:60]}` sets or clears flag {flag.name} depending on a run-time value")
             if q in setq:
                 return ("set", q)
             if q in clrq:
